@@ -47,21 +47,40 @@ func (k Keeper) Logger(ctx sdk.Context) log.Logger {
 	return ctx.Logger().With("module", fmt.Sprintf("x/%s", types.ModuleName))
 }
 
+// The distributor runs in BeginBlock and deliberately swallows transfer errors. Bank transfers are not atomic
+// (a multi-denom send can fail after some balances were already written), so every transfer is executed on a
+// cached context that is written only on success - a failed transfer must leave no trace.
+func (k Keeper) atomically(ctx sdk.Context, transfer func(ctx sdk.Context) error) error {
+	cacheCtx, writeCache := ctx.CacheContext()
+	if err := transfer(cacheCtx); err != nil {
+		return err
+	}
+	writeCache()
+	return nil
+}
+
 func (k Keeper) SendCoinsFromModuleToModule(ctx sdk.Context, coins sdk.Coins, moduleFrom string, moduleTo string) error {
-	return k.bankKeeper.SendCoinsFromModuleToModule(ctx, moduleFrom, moduleTo, coins)
+	return k.atomically(ctx, func(ctx sdk.Context) error {
+		return k.bankKeeper.SendCoinsFromModuleToModule(ctx, moduleFrom, moduleTo, coins)
+	})
 }
 
 func (k Keeper) SendCoinsFromModuleAccount(ctx sdk.Context, coins sdk.Coins, moduleFrom string, account sdk.AccAddress) error {
-	return k.bankKeeper.SendCoinsFromModuleToAccount(ctx, moduleFrom, account, coins)
+	return k.atomically(ctx, func(ctx sdk.Context) error {
+		return k.bankKeeper.SendCoinsFromModuleToAccount(ctx, moduleFrom, account, coins)
+	})
 }
 
 func (k Keeper) SendCoinsToModuleAccount(ctx sdk.Context, coins sdk.Coins, account sdk.AccAddress, moduleTo string) error {
-	return k.bankKeeper.SendCoinsFromAccountToModule(ctx, account, moduleTo, coins)
+	return k.atomically(ctx, func(ctx sdk.Context) error {
+		return k.bankKeeper.SendCoinsFromAccountToModule(ctx, account, moduleTo, coins)
+	})
 }
 
 func (k Keeper) BurnCoinsForSpecifiedModuleAccount(ctx sdk.Context, coins sdk.Coins, moduleAccountName string) error {
-	return k.bankKeeper.BurnCoins(ctx, moduleAccountName, coins)
-
+	return k.atomically(ctx, func(ctx sdk.Context) error {
+		return k.bankKeeper.BurnCoins(ctx, moduleAccountName, coins)
+	})
 }
 
 func (k Keeper) GetAccountCoins(ctx sdk.Context, account sdk.AccAddress) sdk.Coins {
